@@ -152,6 +152,11 @@ func (f *Frame) doAlloc(x *ssa.Alloc) {
 	r := f.newRef()
 	f.setVal(x, r)
 	f.zeroInit(f.vals[x], elem)
+	if n, ok := elem.(*types.Named); ok && n.Obj().Pkg() != nil && (n.Obj().Pkg().Path() == "bytes" && n.Obj().Name() == "Buffer" || n.Obj().Pkg().Path() == "strings" && n.Obj().Name() == "Builder") {
+		// a zero buffer is empty
+		sort := ArrSort(SInt, SInt)
+		f.stSet("BUF_len", Store(f.stGet("BUF_len", sort), f.vals[x], Zero))
+	}
 	switch elem.Underlying().(type) {
 	case *types.Struct:
 		f.lvs[x] = &LV{kind: lvStruct, idx: f.vals[x], fresh: true}
